@@ -479,7 +479,7 @@ pub fn run(opts: RunOptions) -> i32 {
         });
         std::fs::write(&path, serde_json::to_string_pretty(&rec).unwrap()).ok();
         println!("VIOLATION property={} replay={}", prop.id, path.display());
-        println!("  kind={} config={} case={}", f.kind, f.config, truncate(&case_text, 300));
+        println!("  kind={} config={} case={}", f.kind, f.config, middle_out(&case_text, 60, 260));
         println!("  {}", truncate(&f.detail, 1200));
         reported += 1;
     }
@@ -647,6 +647,17 @@ pub fn run(opts: RunOptions) -> i32 {
         return 2;
     }
     0
+}
+
+/// head … tail of a long text (the interesting part of a generated program is usually its end)
+pub fn middle_out(s: &str, head: usize, tail: usize) -> String {
+    let n = s.chars().count();
+    if n <= head + tail + 1 {
+        return s.to_string();
+    }
+    let h: String = s.chars().take(head).collect();
+    let t: String = s.chars().skip(n - tail).collect();
+    format!("{}…{}", h, t)
 }
 
 pub fn truncate(s: &str, n: usize) -> String {
